@@ -142,6 +142,8 @@ def _dict(I, it=None, **kw):
 
 @model("builtins.abs", "numpy.abs", "numpy.fabs", "numpy.absolute")
 def _abs(I, v):
+    if isinstance(v, (list, tuple)):
+        v = as_arr(v)
     if isinstance(v, NDArr):
         return NDArr(elementwise(lambda x: _abs(I, x), v), v.kind)
     if is_sym(v):
@@ -491,7 +493,7 @@ _FUNS = {}
 
 def ufun(name, sort_in=None):
     if name not in _FUNS:
-        _FUNS[name] = z3.Function(name, z3.RealSort(), z3.RealSort())
+        _FUNS[name] = z3.Function("py_" + name, z3.RealSort(), z3.RealSort())
     return _FUNS[name]
 
 
@@ -539,7 +541,7 @@ def _sqrt(I, v):
         v = z(f)
     v = to_real(v)
     I.oblige("sqrt-nonneg", v >= 0)
-    s = I.fresh("real", "sqrt")
+    s = ufun("sqrt")(z3.simplify(v))     # a function of its argument: equal radicands give the same term
     I.assume(z3.And(s >= 0, s * s == v))
     return s
 
